@@ -5,7 +5,7 @@ import Std.Data.HashSet
 open Scrapli.Close Scrapli.Close.Sys
 
 def enc (s : St) : Nat :=
-  ((((((((((((b2n s.nc * 3 + s.mode.toNat) * 2 + b2n s.twice) * 12 + s.r.toNat) * 11 + s.k.toNat) * 2
+  ((((((((((((b2n s.nc * 3 + s.mode.toNat) * 2 + b2n s.twice) * 13 + s.r.toNat) * 11 + s.k.toNat) * 2
     + b2n s.second) * 6 + s.o.toNat) * 2 + b2n s.oSecond) * 11 + s.n.toNat) * 6 + s.w.toNat) * 4
     + s.feed.toNat) * 3 + s.left.toNat) * 3 + s.panic.ctorIdx) * 4 + b2n s.closeErr * 2 + b2n s.lastErr
 
